@@ -906,6 +906,8 @@ static int cmd_worker(int argc, char **argv)
     fprintf(stderr, "scenario %s is not valid in lane %s\n", sc->name, rksim_lane_name());
     return 2;
   }
+  if (sc->fork_per_run)
+    batch = 1;
   if (pin >= 0) {
     cpu_set_t cs;
     CPU_ZERO(&cs);
